@@ -411,6 +411,30 @@ namespace Dune {
       return &_data;
     }
 
+    //! Vector space multiplication with a scalar of another type (same type: free operators below)
+    template<class Scalar,
+      std::enable_if_t<IsNumber<Scalar>::value && !std::is_same_v<Scalar,K>, int> = 0>
+    friend constexpr auto operator* (const FieldVector& vector, Scalar scalar)
+    {
+      return FieldVector<typename PromotionTraits<K,Scalar>::PromotedType,1>(vector[0] * scalar);
+    }
+
+    //! Vector space multiplication with a scalar of another type
+    template<class Scalar,
+      std::enable_if_t<IsNumber<Scalar>::value && !std::is_same_v<Scalar,K>, int> = 0>
+    friend constexpr auto operator* (Scalar scalar, const FieldVector& vector)
+    {
+      return FieldVector<typename PromotionTraits<K,Scalar>::PromotedType,1>(scalar * vector[0]);
+    }
+
+    //! Vector space division by a scalar of another type
+    template<class Scalar,
+      std::enable_if_t<IsNumber<Scalar>::value && !std::is_same_v<Scalar,K>, int> = 0>
+    friend constexpr auto operator/ (const FieldVector& vector, Scalar scalar)
+    {
+      return FieldVector<typename PromotionTraits<K,Scalar>::PromotedType,1>(vector[0] / scalar);
+    }
+
     //===== conversion operator
 
     /** \brief Conversion operator */
